@@ -56,19 +56,21 @@ func (f *FuncSrc) Recv() *types.Var {
 }
 
 type Prog struct {
-	Fset    *token.FileSet
-	Pkgs    []*packages.Package // packages of the module
-	ByPath  map[string]*packages.Package
-	All     map[string]*packages.Package // including dependencies
-	Funcs   map[*types.Func]*FuncSrc
-	Lits    map[*ast.FuncLit]*FuncSrc
-	AllSrcs []*FuncSrc
-	nfuncs  int
-	tags    string
-	goos    string
+	Fset       *token.FileSet
+	Normalized int                 // hoisted conditions folded back by normalizeConds
+	Pkgs       []*packages.Package // packages of the module
+	ByPath     map[string]*packages.Package
+	All        map[string]*packages.Package // including dependencies
+	Funcs      map[*types.Func]*FuncSrc
+	Lits       map[*ast.FuncLit]*FuncSrc
+	AllSrcs    []*FuncSrc
+	nfuncs     int
+	tags       string
+	goos       string
 }
 
 type LoadOpts struct {
+	Raw      bool // leave the syntax trees exactly as parsed (source-rewriting commands)
 	Patterns []string
 	Tags     string
 	GOOS     string
@@ -132,6 +134,9 @@ func Load(o LoadOpts) (*Prog, error) {
 	}
 	sort.Slice(p.Pkgs, func(i, j int) bool { return p.Pkgs[i].PkgPath < p.Pkgs[j].PkgPath })
 	for _, pk := range p.Pkgs {
+		if !o.Raw {
+			p.Normalized += normalizeConds(pk)
+		}
 		p.indexPkg(pk)
 	}
 	return p, nil
@@ -475,3 +480,91 @@ func (p *Prog) LitsOf(fs *FuncSrc) []*FuncSrc {
 }
 
 func exprStr(e ast.Expr) string { return types.ExprString(e) }
+
+// normalizeConds undoes, in the loaded syntax trees only, the hoisting of a branch condition
+// into a boolean local that is used for nothing else:
+//
+//	if ok := <expr>; ok { … }        →  if <expr> { … }
+//	ok := <expr>; if !ok { … }       →  if !(<expr>) { … }
+//
+// so that every rule sees one shape.  <expr> keeps its type information (it was type-checked
+// where it stood) and its position; the local must have exactly one use (the condition).
+func normalizeConds(pk *packages.Package) int {
+	info := pk.TypesInfo
+	uses := map[types.Object]int{}
+	for _, o := range info.Uses {
+		uses[o]++
+	}
+	n := 0
+	// the hoisted definition `id := expr` of cond, or nil
+	hoisted := func(def ast.Stmt, cond ast.Expr) ast.Expr {
+		as, ok := def.(*ast.AssignStmt)
+		if !ok || as.Tok != token.DEFINE || len(as.Lhs) != 1 || len(as.Rhs) != 1 {
+			return nil
+		}
+		lid, ok := as.Lhs[0].(*ast.Ident)
+		if !ok || lid.Name == "_" {
+			return nil
+		}
+		obj := info.Defs[lid]
+		if obj == nil || uses[obj] != 1 {
+			return nil
+		}
+		if b, ok := obj.Type().Underlying().(*types.Basic); !ok || b.Info()&types.IsBoolean == 0 {
+			return nil
+		}
+		inner := ast.Unparen(cond)
+		neg := false
+		if u, ok := inner.(*ast.UnaryExpr); ok && u.Op == token.NOT {
+			inner, neg = ast.Unparen(u.X), true
+		}
+		id, ok := inner.(*ast.Ident)
+		if !ok || info.Uses[id] != obj {
+			return nil
+		}
+		if neg {
+			ne := &ast.UnaryExpr{Op: token.NOT, OpPos: as.Rhs[0].Pos(), X: &ast.ParenExpr{Lparen: as.Rhs[0].Pos(), X: as.Rhs[0], Rparen: as.Rhs[0].End()}}
+			info.Types[ne] = info.Types[as.Rhs[0]]
+			info.Types[ne.X] = info.Types[as.Rhs[0]]
+			return ne
+		}
+		return as.Rhs[0]
+	}
+	fixList := func(list []ast.Stmt) []ast.Stmt {
+		out := list[:0:0]
+		for i := 0; i < len(list); i++ {
+			if i+1 < len(list) {
+				if ifs, ok := list[i+1].(*ast.IfStmt); ok && ifs.Init == nil {
+					if e := hoisted(list[i], ifs.Cond); e != nil {
+						ifs.Cond = e
+						n++
+						continue // drop the definition
+					}
+				}
+			}
+			out = append(out, list[i])
+		}
+		return out
+	}
+	for _, f := range pk.Syntax {
+		ast.Inspect(f, func(nd ast.Node) bool {
+			switch x := nd.(type) {
+			case *ast.IfStmt:
+				if x.Init != nil {
+					if e := hoisted(x.Init, x.Cond); e != nil {
+						x.Init, x.Cond = nil, e
+						n++
+					}
+				}
+			case *ast.BlockStmt:
+				x.List = fixList(x.List)
+			case *ast.CaseClause:
+				x.Body = fixList(x.Body)
+			case *ast.CommClause:
+				x.Body = fixList(x.Body)
+			}
+			return true
+		})
+	}
+	return n
+}
